@@ -93,7 +93,7 @@ Lemma env1_lor e (H : lin e = true) a b :
 Proof. rewrite <- (lin_lor _ H). apply eval_ext. intro n. reflexivity. Qed.
 
 Lemma env1_zero e (H : lin e = true) : eval e (env1 0) = 0.
-Proof. rewrite <- (lin_zero _ H). apply eval_ext. intro n. reflexivity. Qed.
+Proof. rewrite <- (lin_zero _ H) at 2. apply eval_ext. intro n. reflexivity. Qed.
 
 Lemma fromZ_fx_units : units_agree 64 fromZ_fx evens = true.
 Proof. vm_compute. reflexivity. Qed.
@@ -110,6 +110,8 @@ Proof.
 Qed.
 
 (** ** Bounds *)
+Lemma pow2_pos n : 0 < 2 ^ n.
+Proof. apply N.neq_0_lt_0, N.pow_nonzero. discriminate. Qed.
 Lemma spread_pos_size p : (Pos.size_nat (spread_pos p) <= 2 * Pos.size_nat p)%nat.
 Proof. induction p; simpl; lia. Qed.
 
@@ -118,7 +120,7 @@ Proof.
   revert n. induction p as [p IH | p IH |]; intros [| n] H; simpl in H; try lia.
   - specialize (IH n ltac:(lia)). rewrite Nat2N.inj_succ, N.pow_succ_r'. lia.
   - specialize (IH n ltac:(lia)). rewrite Nat2N.inj_succ, N.pow_succ_r'. lia.
-  - rewrite Nat2N.inj_succ, N.pow_succ_r'. assert (0 < 2 ^ N.of_nat n) by (apply N.pow_pos_nonneg; lia). lia.
+  - rewrite Nat2N.inj_succ, N.pow_succ_r'. assert (0 < 2 ^ N.of_nat n) by (apply pow2_pos). lia.
 Qed.
 
 Lemma size_of_lt p n : Npos p < 2 ^ N.of_nat n -> (Pos.size_nat p <= n)%nat.
@@ -135,13 +137,13 @@ Qed.
 Lemma spread_bound x n : x < 2 ^ N.of_nat n -> spread x < 2 ^ N.of_nat (2 * n).
 Proof.
   destruct x as [| p]; intro H; simpl.
-  - apply N.pow_pos_nonneg; lia.
+  - apply pow2_pos.
   - apply N_lt_pow2_size. pose proof (spread_pos_size p). apply size_of_lt in H. lia.
 Qed.
 
 Lemma lor_bound a b n : a < 2 ^ n -> b < 2 ^ n -> N.lor a b < 2 ^ n.
 Proof.
-  intros Ha Hb. destruct (N.eq_dec (N.lor a b) 0) as [E | E]; [rewrite E; apply N.pow_pos_nonneg; lia |].
+  intros Ha Hb. destruct (N.eq_dec (N.lor a b) 0) as [E | E]; [rewrite E; apply pow2_pos |].
   apply N.log2_lt_pow2; [lia |]. rewrite N.log2_lor.
   destruct (N.eq_dec a 0) as [-> | Ha0]; destruct (N.eq_dec b 0) as [-> | Hb0]; simpl in *;
     try (apply N.max_lub_lt; apply N.log2_lt_pow2; lia).
@@ -150,56 +152,25 @@ Proof.
   - rewrite N.max_l by lia. apply N.log2_lt_pow2; lia.
 Qed.
 
+Lemma spread_pos_size_eq p : (Pos.size_nat (spread_pos p) = 2 * Pos.size_nat p - 1)%nat.
+Proof.
+  induction p as [p IH | p IH |]; simpl; [rewrite IH | rewrite IH | reflexivity];
+    pose proof (Pos.size_nat_monotone 1 p); destruct p; simpl in *; lia.
+Qed.
+
+Lemma spread_bound_sharp y : y < 2 ^ 32 -> N.double (spread y) < 2 ^ 64.
+Proof.
+  intro H. destruct y as [| p]; [reflexivity |]. simpl.
+  change (N.pos (spread_pos p)~0 < 2 ^ N.of_nat 64). apply N_lt_pow2_size. simpl.
+  change (2 ^ 32) with (2 ^ N.of_nat 32) in H. apply size_of_lt in H.
+  rewrite spread_pos_size_eq. lia.
+Qed.
+
 Lemma interleave_bound x y : x < 2 ^ 32 -> y < 2 ^ 32 -> interleave x y < 2 ^ 64.
 Proof.
   intros Hx Hy. unfold interleave.
-  pose proof (spread_bound x 32 Hx) as Bx. pose proof (spread_bound y 32 Hy) as By.
-  change (N.of_nat (2 * 32)) with 64 in *.
-  apply lor_bound; [exact Bx |].
-  rewrite N.double_spec. destruct (spread y) as [| q] eqn:E; [apply N.pow_pos_nonneg; lia |].
-  (* spread y has its top bit at an even position < 63, so doubling stays below 2^64:
-     use the sharper bound 2^63 obtained from odd bits being zero *)
-  assert (Hodd : odds (spread y) = 0) by apply odds_spread.
-  assert (Hlt : spread y < 2 ^ 63).
-  { destruct (N.lt_ge_cases (spread y) (2 ^ 63)) as [L | G]; [exact L | exfalso].
-    (* bit 63 would be set *)
-    assert (T : N.testbit (spread y) 63 = true).
-    { rewrite E in *. apply N.testbit_true. 
-      assert (Npos q / 2 ^ 63 = 1).
-      { apply N.div_unique with (r := Npos q - 2 ^ 63); [| lia].
-        change (2 ^ 64) with (2 * 2 ^ 63) in By. lia. }
-      rewrite H. reflexivity. }
-    (* odd bit 63 set contradicts odds = 0: testbit (odds z) 31 = testbit z 63 *)
-    assert (K : forall z n, N.testbit (odds z) n = N.testbit z (2 * n + 1)).
-    { clear. intros z n.
-      assert (KK : forall p t n, N.testbit (pick t p) n = N.testbit (Npos p) (2 * n + (if t then 0 else 1))).
-      { induction p as [p IH | p IH |]; intros t m; destruct t; cbn [pick].
-        - destruct m as [| m'].
-          + simpl. destruct (pick false p); reflexivity.
-          + rewrite N.succ_double_spec.
-            replace (N.pos m') with (N.succ (N.pos m' - 1)) at 1 by lia.
-            rewrite N.testbit_odd_succ by lia. rewrite IH.
-            replace (2 * N.pos m' + 0) with (N.succ (2 * (N.pos m' - 1) + 1)) by lia.
-            change (N.pos p~1) with (2 * N.pos p + 1). rewrite N.testbit_odd_succ by lia. reflexivity.
-        - rewrite IH. change (N.pos p~1) with (2 * N.pos p + 1).
-          replace (2 * m + 1) with (N.succ (2 * m + 0)) by lia.
-          rewrite N.testbit_odd_succ by lia. reflexivity.
-        - destruct m as [| m'].
-          + simpl. destruct (pick false p); reflexivity.
-          + rewrite N.double_spec.
-            replace (N.pos m') with (N.succ (N.pos m' - 1)) at 1 by lia.
-            rewrite N.testbit_even_succ by lia. rewrite IH.
-            replace (2 * N.pos m' + 0) with (N.succ (2 * (N.pos m' - 1) + 1)) by lia.
-            change (N.pos p~0) with (2 * N.pos p). rewrite N.testbit_even_succ by lia. reflexivity.
-        - rewrite IH. change (N.pos p~0) with (2 * N.pos p).
-          replace (2 * m + 1) with (N.succ (2 * m + 0)) by lia.
-          rewrite N.testbit_even_succ by lia. reflexivity.
-        - destruct m; reflexivity.
-        - destruct m as [| m']; [reflexivity |]. simpl. destruct m'; reflexivity. }
-      destruct z as [| p]; [now rewrite !N.bits_0 | apply KK]. }
-    specialize (K (spread y) 31). rewrite Hodd, N.bits_0 in K. change (2 * 31 + 1) with 63 in K.
-    congruence. }
-  rewrite E in Hlt. change (2 ^ 64) with (2 * 2 ^ 63). lia.
+  pose proof (spread_bound x 32 Hx) as Bx. change (N.of_nat (2 * 32)) with 64 in Bx.
+  apply lor_bound; [exact Bx | apply spread_bound_sharp; exact Hy].
 Qed.
 
 (** ** Corollaries used by the properties *)
@@ -228,6 +199,10 @@ Proof.
   rewrite (toZ_spec _ _ Hx2 Hy2), (toZ_spec _ _ Hx Hy). cbn [fst].
   rewrite <- !div2_half, interleave_parent. apply div2_div2_div4.
 Qed.
+
+Theorem parent_shiftr x y : x < 2 ^ 32 -> y < 2 ^ 32 ->
+  fst (toZ (x / 2) (y / 2)) = N.shiftr (fst (toZ x y)) 2.
+Proof. intros Hx Hy. rewrite parent by assumption. now rewrite N.shiftr_div_pow2. Qed.
 
 Theorem not_encodable x y : snd (toZ x y) = false <-> 2 ^ 32 <= x \/ 2 ^ 32 <= y.
 Proof.
@@ -273,5 +248,9 @@ Proof.
   change (N.land 1 1) with (bit true). change (N.shiftr (N.land 1 2) 1) with (bit false).
   change (N.land 2 1) with (bit false). change (N.shiftr (N.land 2 2) 1) with (bit true).
   change (N.land 3 1) with (bit true). change (N.shiftr (N.land 3 2) 1) with (bit true).
-  rewrite !Hc. cbn [bit]. repeat f_equal; lia.
+  rewrite !Hc. cbn [bit].
+  repeat match goal with
+         | |- _ :: _ = _ :: _ => f_equal
+         | |- Some _ = Some _ => f_equal; lia
+         end.
 Qed.
